@@ -15,6 +15,7 @@ import (
 	"github.com/rogpeppe/go-internal/lockedfile"
 
 	"cuelang.org/go/internal/robustio"
+	"cuelang.org/go/internal/verifhook"
 	"cuelang.org/go/mod/module"
 )
 
@@ -68,6 +69,7 @@ func (c *Cache) writeDiskCache(ctx context.Context, file string, data []byte) er
 	if err != nil {
 		return err
 	}
+	verifhook.At("M_CreateTmp")
 	defer func() {
 		// Only call os.Remove on f.Name() if we failed to rename it: otherwise,
 		// some other process may have created a new file with the same name after
@@ -84,9 +86,11 @@ func (c *Cache) writeDiskCache(ctx context.Context, file string, data []byte) er
 	if err := f.Close(); err != nil {
 		return err
 	}
+	verifhook.At("M_Write")
 	if err := robustio.Rename(f.Name(), file); err != nil {
 		return err
 	}
+	verifhook.At("M_Rename")
 	return nil
 }
 
